@@ -176,12 +176,24 @@ class C16(MergeFamProp):
                         else: p = rng.choice(lists) if lists and rng.random() < 0.6 else (rng.choice(anyp) if anyp and rng.random() < 0.6 else ('fresh',))
                         leaf = Q([gen_plain_value(rng, 1) for _ in range(rng.choice([0, 1, 2]))], tag='extend')
                     elif r < 0.9:
+                        x = None
                         src = rng.choice([pp for pp, o in paths if pp]) if len(paths) > 1 and rng.random() < 0.85 else ('missing', 'x')
                         far = [pp for pp, o in paths if any(isinstance(k, int) and k >= 10 for k in pp)]
                         if far and rng.random() < 0.5:
                             src = rng.choice(far)
-                        x = rng.random()
-                        if x < 0.55: p = (rng.choice(['q', 'r', 'moved']),)
+                        # a MAPPING that is an element of a list (it carries what the list handed down), moved onto a key that holds a
+                        # mapping already: the two merge, nothing the target had is lost (seeded change S7-C16)
+                        elmaps = [pp for pp, o in paths if pp and isinstance(pp[-1], int) and isinstance(o, dict) and o]
+                        tgtmaps = [pp for pp, o in paths if pp and isinstance(o, dict) and o and all(isinstance(k, str) for k in pp)]
+                        if elmaps and tgtmaps and rng.random() < 0.35:
+                            src = rng.choice(elmaps)
+                            cand = [t for t in tgtmaps if t[:len(src)] != src and src[:len(t)] != t]
+                            if cand:
+                                x = 2.0
+                                p = rng.choice(cand)
+                        x = rng.random() if x != 2.0 else x
+                        if x == 2.0: pass
+                        elif x < 0.55: p = (rng.choice(['q', 'r', 'moved']),)
                         elif x < 0.7: p = missing_path(rng.choice(['q', 'moved']))      # a new key at depth >= 2 (below an existing mapping)
                         else: p = (rng.choice(anyp) + ('m',) if anyp and rng.random() < 0.7 else (rng.choice(anyp) if anyp else ('q',)))
                         leaf = Stext(NodePath.join_path(list(src)), 'prev')
